@@ -126,6 +126,7 @@ func (c *ATConn) ExecContext(ctx context.Context, query string, args []driver.Na
 
 // BeginTx
 func (c *ATConn) BeginTx(ctx context.Context, opts driver.TxOptions) (driver.Tx, error) {
+	wasAutoCommit := c.autoCommit
 	c.autoCommit = false
 
 	c.txCtx = types.NewTxCtx()
@@ -140,6 +141,8 @@ func (c *ATConn) BeginTx(ctx context.Context, opts driver.TxOptions) (driver.Tx,
 
 	tx, err := c.Conn.BeginTx(ctx, opts)
 	if err != nil {
+		// no transaction was opened: the connection stays in the mode it was in
+		c.autoCommit = wasAutoCommit
 		return nil, err
 	}
 
